@@ -12,7 +12,7 @@ import json,re,sys
 m=json.load(open('$d/meta.json'))
 print(' '.join(sorted({re.match(r'C\d\d',c).group(0) for c in m.get('caught_by',[]) if re.match(r'C\d\d',c)})))")
   [ -z "$ids" ] && { echo "$id: no check named"; continue; }
-  out=$(SEEDS="1 2" tools/try_seed.sh "/verif/${d}patch.diff" $ids 2>&1)
+  out=$(SEEDS="${SEEDS:-1 2}" tools/try_seed.sh "/verif/${d}patch.diff" $ids 2>&1)
   echo "$out" | grep -E "^== |VIOLATION" | sed 's/replay=.*//' > "$d/last_run.txt"
   caught=$(grep -c "exit=1" "$d/last_run.txt")
   total=$(grep -c "^== " "$d/last_run.txt")
